@@ -72,16 +72,19 @@ def worker(ctx):
     from vlib.gen import effects
 
     strat = effects.programs(allow_known=False)
+    batches = effects.program_batches(k=ctx.params.get("batch", 5), allow_known=False)
     mism = []
     outside = [0]
+    total = [0]
 
-    def body(p):
+    def record(p, st, bucket, detail):
         src = p["src"]
-        st, bucket, detail = evaluate(src)
+        total[0] += 1
         for e in p["excluded"]:
             ctx.exclude(e)
         ctx.case(src, p["nontrivial"] and st == "ok", labels=list(p["labels"]) + ["status:" + st],
-                 sample={"src": src[src.index("def main"):], "status": st} if p["nontrivial"] and st == "ok" else None)
+                 sample={"src": src[src.index("def p"):] if "def p" in src else src[src.index("def main"):], "status": st}
+                 if p["nontrivial"] and st == "ok" else None)
         if st == "mismatch":
             mism.append((bucket, src, detail))
         elif st == "generr":
@@ -93,7 +96,20 @@ def worker(ctx):
         elif st == "unsupported":
             ctx.unsupported_case(bucket)
 
-    n = harness.hyp_search(ctx, strat, body, max_examples=ctx.params["n"], chunk=25, time_frac=0.6)
+    def body(b):
+        # one selene build for the whole batch (only its last program may panic); if the batch is
+        # not clean every program is judged on its own
+        st, bucket, detail = evaluate(b["src"])
+        if st == "ok":
+            for p in b["parts"]:
+                record(p, "ok", None, None)
+            return
+        ctx.label("batch_not_clean:" + st)
+        for p in b["parts"]:
+            record(p, *evaluate(p["src"]))
+
+    harness.hyp_search(ctx, batches, body, max_examples=ctx.params["n"], chunk=10, time_frac=0.6)
+    n = total[0]
     if n >= 20 and outside[0] > 0.1 * n:
         ctx.harness_error(f"generator unsound: {outside[0]}/{n} generated programs were not accepted")
 
@@ -139,7 +155,7 @@ SPEC = harness.Spec(
     assumptions=["CPython 3.12 evaluation order is the reference", "selene 0.4.3 executes the lowered package; result order in the stream is execution order"],
     shards={"quick": 16, "thorough": 16},
     budget_s={"quick": 100, "thorough": 1200},
-    params={"quick": {"n": 50, "n_known": 10}, "thorough": {"n": 2000, "n_known": 300}},
+    params={"quick": {"n": 12, "batch": 5, "n_known": 6}, "thorough": {"n": 500, "batch": 5, "n_known": 300}},
     min_nontrivial=30,
 )
 
